@@ -225,4 +225,26 @@ example : Good ⟨exDesc, init exDesc (List.replicate 16 0) [] [[0], [0, 0]]⟩ 
       simp [Desc.cmdD, Desc.cmd?, exDesc, exCmd, Desc.commandsNum, cmdByIndex] at hv
       rcases hv with hv | hv <;> subst hv <;> simp
 
+/-- the counters this property's theorems keep as unbounded natural numbers (`var_num`, `buf_size`, `cmd_group_num`, `unsolicited_buf_size`, `cmd_num`, `commands_num`, `index`, `length`, `partial_cntr`, `position`, `write_size`, `index`, `position`, `unsolicited_cmd_buffer_head`, `unsolicited_cmd_buffer_items_count`, `unsolicited_cmd_buffer_tail`, `data_size`) are declared
+`size_t` in `cat.h` — 64 bits on the target, so they cannot wrap on any buffer, table or line that exists; the widths
+are read from the struct declarations on every run (translator item T21) -/
+theorem C03_counters_unbounded :
+    Gen.width_cmd_var_num = 64 ∧
+    Gen.width_desc_buf_size = 64 ∧
+    Gen.width_desc_cmd_group_num = 64 ∧
+    Gen.width_desc_unsolicited_buf_size = 64 ∧
+    Gen.width_group_cmd_num = 64 ∧
+    Gen.width_obj_commands_num = 64 ∧
+    Gen.width_obj_index = 64 ∧
+    Gen.width_obj_length = 64 ∧
+    Gen.width_obj_partial_cntr = 64 ∧
+    Gen.width_obj_position = 64 ∧
+    Gen.width_obj_write_size = 64 ∧
+    Gen.width_uns_index = 64 ∧
+    Gen.width_uns_position = 64 ∧
+    Gen.width_uns_unsolicited_cmd_buffer_head = 64 ∧
+    Gen.width_uns_unsolicited_cmd_buffer_items_count = 64 ∧
+    Gen.width_uns_unsolicited_cmd_buffer_tail = 64 ∧
+    Gen.width_var_data_size = 64 := by decide
+
 end Cat
